@@ -181,15 +181,20 @@ Proof. exact ctor_ok. Qed.
         deposit (locked_funds > 0) and enrols nothing. ---- *)
 Definition F2_history : list op := [CreateMiner 1000 100 31999999497815982080].
 
+Definition F2_miner : miner :=
+  {| m_pps := -2780; m_dl := 46; m_active := false; m_et := 0; m_pcd := 0; m_ip := 0;
+     m_locked := 31999999497815982080; m_pre := false |}.
+
 Theorem C05_active_iff_obligations_refuted :
   exists ops id mi, Forall wf_op ops /\ miners (run (init 0 0 25000) ops) !! id = Some mi /\
     obl_nz (m_obl mi) = true /\ m_active mi = false /\ m_pre mi = false /\
     (forall k, pdq (run (init 0 0 25000) ops) id k = 0).
 Proof.
-  exists F2_history, 1000.
-  eexists. split; [repeat constructor|]. split; [vm_compute; reflexivity|].
+  exists F2_history, 1000, F2_miner.
+  split; [repeat constructor|]. split; [vm_compute; reflexivity|].
   split; [reflexivity|]. split; [reflexivity|]. split; [reflexivity|].
-  intros k. unfold pdq. vm_compute. reflexivity.
+  intros k. unfold pdq. replace (queue (run (init 0 0 25000) F2_history)) with (∅ : gmap Z (list (Z * Z))) by (vm_compute; reflexivity).
+  rewrite evs_empty. reflexivity.
 Qed.
 
 (* the strongest true variant: outside the known class (a miner that has never pre-committed), and when no input
@@ -223,24 +228,24 @@ Definition ex_ops : list op :=
   [CreateMiner 1000 100 5; T0; T0; PreCommit 1000 (3, 0, 5) false] ++ repeat T0 37 ++ [Tcb (ci_ok (3, 0, 5))] ++
   repeat T0 59 ++ [Tcb (ci_ok (0, 7, 5))].
 
-Example C05_nonvacuous :
-  Forall wf_op ex_ops /\
+Definition ex_check : bool :=
   let st := run (init 0 0 2) ex_ops in
-  now st = 100 /\ 1000 ∈ claims st /\
-  (exists mi, miners st !! 1000 = Some mi /\ m_active mi = true /\ m_pps mi = 100 /\ m_dl mi = 0 /\
-              recorded_ok mi (now st) = true /\ dl_last (m_pps mi) (now st) = 159) /\
-  evs (queue st) 159 = [(1000, PD)] /\ pending st 1000 PD = 1 /\
+  (now st =? 100) && bool_decide (1000 ∈ claims st) &&
+  match miners st !! 1000 with
+  | Some mi => m_active mi && (m_pps mi =? 100) && (m_dl mi =? 0) && recorded_ok mi (now st) &&
+               (dl_last (m_pps mi) (now st) =? 159)
+  | None => false end &&
+  zlist_eqb (enc_events (evs (queue st) 159)) [1000; PD] && (pending st 1000 PD =? 1) &&
   (* the same history continued: a callback failing on UpdatePledgeTotal (F1) costs the claim and freezes the miner *)
-  let st2 := run st (repeat T0 59 ++ [Tcb (ci_f1 (0, 7, 5))]) in
-  1000 ∉ claims st2 /\ miner_count st2 = 0 /\ pending st2 1000 PD = 0 /\
+  (let st2 := run st (repeat T0 59 ++ [Tcb (ci_f1 (0, 7, 5))]) in
+   negb (bool_decide (1000 ∈ claims st2)) && (miner_count st2 =? 0) && (pending st2 1000 PD =? 0) &&
+   match miners st2 !! 1000 with Some mi => m_active mi | None => false end) &&
   (* and a cron whose obligations are gone stops *)
-  let st3 := run st (repeat T0 59 ++ [Tcb (ci_ok (0, 0, 0))]) in
-  (exists mi, miners st3 !! 1000 = Some mi /\ m_active mi = false) /\ pending st3 1000 PD = 0.
-Proof.
-  split; [repeat constructor|]. vm_compute.
-  repeat split; try (eexists; repeat split; reflexivity); try reflexivity;
-    try (apply bool_decide_unpack; vm_compute; exact I); try (intros H; apply (bool_decide_pack _) in H; vm_compute in H; exact H).
-Qed.
+  (let st3 := run st (repeat T0 59 ++ [Tcb (ci_ok (0, 0, 0))]) in
+   match miners st3 !! 1000 with Some mi => negb (m_active mi) | None => false end && (pending st3 1000 PD =? 0)).
+
+Example C05_nonvacuous : Forall wf_op ex_ops /\ ex_check = true.
+Proof. split; [apply wf_opb_ok; vm_compute; reflexivity|vm_compute; reflexivity]. Qed.
 
 (* early-termination drain with budget 2: 5 sectors terminated by the user at epoch 0 leave 3 (event enrolled for
    epoch 1), the callback at epoch 1 leaves 1 (event for epoch 2), the callback at epoch 2 leaves 0 (no event) *)
@@ -248,11 +253,12 @@ Definition ex_drain : list op :=
   [CreateMiner 1000 100 5; PreCommit 1000 (3, 0, 5) false; Terminate 1000 5 (3, 4, 5) false;
    T0; Tcb (ci_ok (3, 3, 5)); Tcb (ci_ok (3, 2, 5))].
 
-Example C05_nonvacuous_drain :
-  Forall wf_op ex_drain /\
-  map (fun ops => match miners (run (init 0 0 2) ops) !! 1000 with Some mi => m_et mi | None => -1 end)
-      [firstn 3 ex_drain; firstn 5 ex_drain; ex_drain] = [3; 1; 0] /\
-  evs (queue (run (init 0 0 2) (firstn 3 ex_drain))) 1 = [(1000, ET)] /\
-  evs (queue (run (init 0 0 2) (firstn 5 ex_drain))) 2 = [(1000, ET)] /\
-  evs (queue (run (init 0 0 2) ex_drain)) 3 = [].
-Proof. split; [repeat constructor|]. vm_compute. repeat split. Qed.
+Definition ex_drain_check : bool :=
+  zlist_eqb (map (fun ops => match miners (run (init 0 0 2) ops) !! 1000 with Some mi => m_et mi | None => -1 end)
+                 [firstn 3 ex_drain; firstn 5 ex_drain; ex_drain]) [3; 1; 0] &&
+  zlist_eqb (enc_events (evs (queue (run (init 0 0 2) (firstn 3 ex_drain))) 1)) [1000; ET] &&
+  zlist_eqb (enc_events (evs (queue (run (init 0 0 2) (firstn 5 ex_drain))) 2)) [1000; ET] &&
+  zlist_eqb (enc_events (evs (queue (run (init 0 0 2) ex_drain)) 3)) [].
+
+Example C05_nonvacuous_drain : Forall wf_op ex_drain /\ ex_drain_check = true.
+Proof. split; [apply wf_opb_ok; vm_compute; reflexivity|vm_compute; reflexivity]. Qed.
